@@ -118,13 +118,39 @@ class ToolboxTask:
             return          # documented in-place operation on the receiver: repeating it is a different request
         if disturb is not None:
             disturb()               # an unrelated call on the same (stateless) object in between
+        r1_expected = r1
+        if entry.kind == 'function' and disturb is None:
+            # what a function returns belongs to the caller: writing into it must not change what the next call
+            # returns (a result that aliases a module-level constant or cache would)
+            import copy as _copy
+            r1_expected = _copy.deepcopy(r1)
+            saved = [a.copy() if isinstance(a, np.ndarray) else None for a in args]
+            for arr in (r1 if isinstance(r1, tuple) else (r1,)):
+                if isinstance(arr, np.ndarray) and arr.flags.writeable and arr.dtype.kind == 'f' and arr.size:
+                    try:
+                        arr += 1.2345
+                    except Exception:       # noqa: BLE001
+                        pass
+            if TB.digest_args(args) != before:
+                # the result is a view of the caller's own argument: legitimate aliasing; undo and do not judge it
+                for a, sv in zip(args, saved):
+                    if sv is not None:
+                        a[...] = sv
+                r1_expected = None
+            st['scribbled'] = st.get('scribbled', 0) + 1
         np.random.set_state(state)
         boot._state.update(boot_rng)
         try:
             r2 = invoke(False)
         except Exception as e:      # noqa: BLE001
             r2 = e
-        if isinstance(r2, Exception) or not TB.same_result(r1, r2):
+        if r1_expected is None:
+            return
+        if r1_expected is not r1 and (isinstance(r2, Exception) or not TB.same_result(r1_expected, r2)):
+            self.viol.append({'component': entry.name, 'symptom': 'result-aliases-library-state', 'trigger': 'scribble', 'step': k,
+                              'detail': f'{label}: after the caller wrote into the returned array, the same call returns {_short(r2)} instead of {_short(r1_expected)}'})
+            return
+        if r1_expected is r1 and (isinstance(r2, Exception) or not TB.same_result(r1, r2)):
             self.viol.append({'component': entry.name, 'symptom': 'not-repeatable', 'trigger': 'same-arguments', 'step': k,
                               'detail': f'{label}: two calls with the same arguments (and NumPy seed) returned different results: {_short(r1)} then {_short(r2)}'})
 
